@@ -25,6 +25,7 @@ func c18(c *Ctx) {
 	errflow.E2E3(c.P, r, sets, errflow.E2Options{Exceptions: e2Exceptions})
 	errflow.E4(c.P, r, "ErrNoMorePackets", sets)
 	errflow.E5(c.P, r, apiCountFuncs)
+	errflow.E5b(c.P, r, apiCountFuncs)
 	r.Floor("E2", "io-tainted error call sites", r.Counters["io_error_call_sites"], 40)
 	r.Count("writer_tainted_funcs", len(sets.Writer))
 	r.Count("reader_tainted_funcs", len(sets.Reader))
